@@ -222,6 +222,9 @@ class DecodeDeterminism(Unit):
         yield "C09", "decoders-observed", len(first) > 200
         for k in sorted(first):
             yield "C09", "same-result-whatever-was-decoded-before:%s" % k, all(r.get(k) == first[k] for r in runs[1:])
+            o = first[k]
+            if not k.startswith("decode:") and isinstance(o, list) and len(o) == 4 and o[0] != "raised":
+                yield "C09", "build_cdb-repeated-on-the-same-object-with-equal-inputs-gives-equal-bytes:%s" % k, isinstance(o[3], list) and o[3][0] == o[3][1] == o[3][2] == o[0]
 
 
 # ------------------------------------------------------------------------------------------ (3) pairs
@@ -364,21 +367,9 @@ def observe_all(order="forward"):
                 obs[L.layout_key(cls)] = _json.loads(data.decode())
         return obs
     for cls in classes:
-        key = L.layout_key(cls)
-        lay = L.CDB[key]
-        sets = sets_offering(key)
-        if not sets:
-            continue
-        s, how = sets[0]
-        vals = {p: _pattern(f.width, p) for p, f in lay.fields.items()}
-        try:
-            cmd = cls(C.find_opcode(s, how), **_ctor_kwargs(cls, key, vals, bytearray(8)))
-            cdb = bytes(cmd.cdb)
-            dec = cls.unmarshall_cdb(cmd.cdb)
-            re = bytes(cls.marshall_cdb(dec))
-            obs[key] = [binascii.hexlify(cdb).decode(), {k: (v if isinstance(v, int) else repr(v)) for k, v in dec.items()}, binascii.hexlify(re).decode()]
-        except Exception as ex:  # an exception is an observation too
-            obs[key] = ["raised", type(ex).__name__, str(ex)[:80]]
+        o = observe_one(cls)
+        if o is not None:
+            obs[L.layout_key(cls)] = o
     return obs
 
 
@@ -524,9 +515,18 @@ def observe_one(cls):
         cdb = bytes(cmd.cdb)
         dec = cls.unmarshall_cdb(cmd.cdb)
         re = bytes(cls.marshall_cdb(dec))
-        return [binascii.hexlify(cdb).decode(), {k: (v if isinstance(v, int) else repr(v)) for k, v in dec.items()}, binascii.hexlify(re).decode()]
+        out = [binascii.hexlify(cdb).decode(), {k: (v if isinstance(v, int) else repr(v)) for k, v in dec.items()}, binascii.hexlify(re).decode()]
     except Exception as ex:
         return ["raised", type(ex).__name__, str(ex)[:80]]
+    # repeating the marshalling call on the same object with equal inputs: equal bytes, earlier results untouched
+    try:
+        first = cmd.build_cdb(**dec)
+        keep = bytes(first)
+        second = cmd.build_cdb(**dec)
+        out.append([binascii.hexlify(keep).decode(), binascii.hexlify(bytes(second)).decode(), binascii.hexlify(bytes(first)).decode(), binascii.hexlify(cdb).decode() == out[0]])
+    except Exception as ex:
+        out.append(["raised", type(ex).__name__])
+    return out
 
 
 def interleaved(run_a, run_b, only_at=None):
@@ -648,6 +648,129 @@ def thread_search(nchunks=12):
     return [f for r in res for f in r["found"]], sum(r["runs"] for r in res)
 
 
+def structured_builders():
+    """{name: callable() -> text}: representative constructions of the commands with structured data-out; EXTENDED COPY with
+    its type codes given by name / description (so that the look-ups by name run)"""
+    import binascii
+
+    def xcopy(lid4):
+        K = importlib.import_module("pyscsi.pyscsi.scsi_cdb_extended_copy_spc5" if lid4 else "pyscsi.pyscsi.scsi_cdb_extended_copy_spc4").ExtendedCopy
+        tkey = "cscd_descriptor_parameters" if lid4 else "target_descriptor_parameters"
+        src, dst = ("source_cscd_descriptor_id", "destination_cscd_descriptor_id") if lid4 else ("source_target_descriptor_id", "destination_target_descriptor_id")
+        tname = "Identification Descriptor CSCD descriptor" if lid4 else "Identification descriptor target descriptor"
+
+        def build():
+            t = {"descriptor_type_code": tname, "peripheral_device_type": "Direct access block device (e.g., magnetic disk)",
+                 tkey: {"code_set": 1, "association": 0, "designator_type": 3, "designator_length": 16,
+                        "designator": {"naa": 6, "ieee_company_id": 0x123456, "vendor_specific_identifier": 0x789ABC, "vendor_specific_identifier_extension": 5}},
+                 "device_type_specific_parameters": {"disk_block_length": 512}}
+            sg = {"descriptor_type_code": "Copy from block device to block device", "dc": 1, src: 0, dst: 0, "block_device_number_of_blocks": 4,
+                  "source_block_device_logical_block_address": 16, "destination_block_device_logical_block_address": 32}
+            op = C.find_opcode("spc", ("name", "EXTENDED_COPY"))
+            cmd = K(op, 0, 0, 0, 0, 0, 0, [t], [sg], bytearray()) if lid4 else K(op, 0, 0, 0, 0, [t], [sg], bytearray())
+            return binascii.hexlify(bytes(cmd.cdb)).decode() + "/" + binascii.hexlify(bytes(cmd.dataout)).decode()
+
+        return build
+
+    out = {"ExtendedCopy4": xcopy(False), "ExtendedCopy5": xcopy(True)}
+    return out
+
+
+def _forked(fn):
+    """run fn() in a child forked from this process; returns its JSON-able result (or ['died'])"""
+    import json as _json
+
+    r, w = os.pipe()
+    pid = os.fork()
+    if pid == 0:
+        try:
+            os.close(r)
+            try:
+                res = fn()
+            except BaseException as ex:
+                res = ["raised", type(ex).__name__, str(ex)[:100]]
+            os.write(w, _json.dumps(res).encode())
+        finally:
+            os._exit(0)
+    os.close(w)
+    data = b""
+    while True:
+        chunk = os.read(r, 65536)
+        if not chunk:
+            break
+        data += chunk
+    os.close(r)
+    os.waitpid(pid, 0)
+    return _json.loads(data.decode()) if data else ["died"]
+
+
+def _child_threads_structured():
+    """two-thread schedules for the structured commands, EVERY schedule in a process that has not built any command yet
+    (lazily initialised shared state is only vulnerable the first time)"""
+    import json
+    import contextlib
+    import io
+
+    from spec import stubs
+
+    stubs.install()
+    import contracts
+
+    contracts.load_all()
+    builders = structured_builders()
+    found, runs = [], 0
+    with contextlib.redirect_stdout(io.StringIO()):
+        for ka, fa in sorted(builders.items()):
+            alone = _forked(fa)
+            lines = _forked(lambda: interleaved(fa, lambda: None)[1])
+            if not isinstance(lines, int):
+                continue
+            for kb, fb in sorted(builders.items()):
+                alone_b = _forked(fb)
+
+                def both(at):
+                    box = {}
+
+                    def run_b():
+                        try:
+                            box["b"] = fb()
+                        except BaseException as ex:
+                            box["b"] = ["raised", type(ex).__name__, str(ex)[:100]]
+
+                    try:
+                        ra = interleaved(fa, run_b, only_at=at)[0]
+                    except BaseException as ex:
+                        ra = ["raised", type(ex).__name__, str(ex)[:100]]
+                    return [ra, box.get("b")]
+
+                for at in range(lines):
+                    got = _forked(lambda: both(at))
+                    runs += 1
+                    if got[0] != alone:
+                        found.append([ka, kb, "one switch, at line boundary %d of %d of thread A, in a process that had not built a command before (thread A's command differs)" % (at, lines), alone, got[0]])
+                        break
+                    if got[1] is not None and got[1] != alone_b:
+                        found.append([kb, ka, "built to completion in thread B while thread A (%s) is paused at line boundary %d of %d, in a process that had not built a command before" % (ka, at, lines), alone_b, got[1]])
+                        break
+                if len(found) >= 4:
+                    break
+    print("THR" + json.dumps({"found": found, "runs": runs}))
+
+
+def thread_search_structured():
+    import json
+    import subprocess
+
+    env = dict(os.environ, PYTHONPATH=os.pathsep.join([VERIF_DIR, os.environ.get("PYSCSI_REPO", "/repo")]), PYTHONDONTWRITEBYTECODE="1")
+    p = subprocess.run([sys.executable, "-B", "-c", "import contracts.isolation as m; m._child_threads_structured()"],
+                       capture_output=True, text=True, timeout=1200, env=env, cwd=VERIF_DIR)
+    for line in p.stdout.splitlines():
+        if line.startswith("THR"):
+            r = json.loads(line[3:])
+            return r["found"], r["runs"]
+    raise RuntimeError("structured thread-schedule process failed: " + (p.stderr or p.stdout)[-400:])
+
+
 def replay(doc):
     """custom replay (pyvc.replay): 1 = interference reproduced, 0 = none found"""
     offending = {"kind": "offending", "unit": doc["unit"], "case": doc["case"], "inputs": doc["inputs"]}
@@ -669,7 +792,10 @@ def replay(doc):
                 found.append((k, base_label, base[k], label, obs[k]))
     print("failed frame obligation:", doc["obligation"])
     if not found:
-        tfound, runs = thread_search()
+        tfound, runs = thread_search_structured()
+        if not tfound:
+            t2, r2 = thread_search()
+            tfound, runs = t2, runs + r2
         if tfound:
             for ka, kb, sched, o0, o1 in tfound[:6]:
                 print("INTERFERENCE (threads): %s built and used in thread A while thread B builds %s, schedule: %s" % (ka, kb, sched))
